@@ -91,6 +91,8 @@ def _compare(doc, benign_doc, expected_cards, what):
             i += 1
         raise Violation("structure-changed", f"{what}: report structure differs from the benign report at event {i}: got {got.skeleton[i:i+3]} expected {ref.skeleton[i:i+3]}")
     cards = htmlo.cards(doc)
+    if len(htmlo.cards(benign_doc)) != len(expected_cards):
+        raise HarnessError("report template not recognised: the benign report does not yield the expected cards")
     if len(cards) != len(expected_cards):
         raise Violation("card-count", f"{what}: {len(cards)} cards, expected {len(expected_cards)}")
     for i, (c, e) in enumerate(zip(cards, expected_cards)):
